@@ -97,7 +97,9 @@ func cliSide(r *mon.Run) {
 		in := filepath.Join(work, fmt.Sprintf("in%d.age", i))
 		os.WriteFile(in, c.file, 0o600)
 		outp := filepath.Join(work, fmt.Sprintf("out%d", i))
-		argv := []string{age, "-d", "-o", outp, in}
+		// the same request in the tool's alternative spellings, rotating
+		dec := []string{"-d", "--decrypt", "-decrypt", "-d=true"}[i%4]
+		argv := [][]string{{age, dec, "-o", outp, in}, {age, dec, "--output", outp, in}, {age, "--output=" + outp, dec, in}}[i%3]
 		if c.memoryLimit {
 			// a tree that derives at the offered work factor needs >= 8 GiB
 			argv = append([]string{"prlimit", "--as=3221225472", "--"}, argv...)
@@ -130,6 +132,7 @@ func cliSide(r *mon.Run) {
 			}
 		}
 	}
+	cliEncryptSide(r, age, work)
 }
 
 func classOfCLI(name string) string {
